@@ -463,7 +463,7 @@ Qed.
 Theorem finish_value w R L k : wrel 8 w R L k -> 128 <= R <= 254 ->
   let out := bw_finish w in
   let J := 8 * (Z.of_nat (length out) - 1) in
-  k <= J /\ bval out = L * 2 ^ (J - k) /\ (2 <= length out)%nat /\ Forall is_byte out.
+  k + 8 <= J /\ bval out = L * 2 ^ (J - k) /\ (2 <= length out)%nat /\ Forall is_byte out.
 Proof.
   intros Hrel HR.
   pose proof Hrel as (ER & He & Hrun & Hbytes & Hlast & Hv & HL & Hk & Hb & Ha & HRr).
